@@ -18,6 +18,7 @@ RULE = ("real DensityEstimation objects driven at their public methods on genera
         "distinct = digest(path, grid, data digest); non-trivial = anisotropic or non-uniform grid with >=3 points in a dimension")
 RULE += (" In 45% of the dimension-wise cases other component grids of the SAME iteration (nearly the same coordinates, other neighbours) are computed with the operation object first.")
 RULE += (" " + 'One operation object is used for several level vectors in a row (permuted level vectors with equal point counts, incl. (4,5)/(5,4) above the 200-point switch); in combination runs the surpluses of every component grid are compared with the reference solution of its own system.')
+RULE += (" Uniform grids go up to d=5; refinement-tree grids WITH boundary points (matrix and right-hand side, samples strictly inside) are a further generator.")
 REQUIRED = ["R_equals_gram_uniform", "R_equals_gram_dimwise", "R_masslumped", "R_spd", "b_uniform", "b_dimwise",
             "hat_evaluators_agree", "surpluses_match_reference_uniform", "surpluses_match_reference_dimwise",
             "normalisation", "combi_interpolant"]
@@ -31,6 +32,7 @@ def cases(tier, seed):
     n1, n2, n3 = (330, 330, 40) if tier == "quick" else (6000, 6000, 400)
     out = [{"gen": "uniform", "seed": case_seed(seed, "C16", "uniform", i), "tier": tier} for i in range(n1)]
     out += [{"gen": "dimwise", "seed": case_seed(seed, "C16", "dimwise", i), "tier": tier} for i in range(n2)]
+    out += [{"gen": "dimwise_boundary", "seed": case_seed(seed, "C16", "dimwise_boundary", i), "tier": tier} for i in range(n2 // 4)]
     out += [{"gen": "combi", "seed": case_seed(seed, "C16", "combi", i), "tier": tier} for i in range(n3)]
     return out
 
@@ -101,9 +103,11 @@ def hat_agreement(res, op, xs, X, cfg, uniform_levels=None):
 
 def run_uniform(case, res):
     rng = random.Random(case["seed"])
-    d = rng.choice([1, 2, 2, 3])
+    d = rng.choice([1, 2, 2, 2, 3, 3, 4, 5])
     while True:
-        lv = [rng.randint(1, {1: 8, 2: 5, 3: 3}[d]) for _ in range(d)]
+        lv = [rng.randint(1, {1: 8, 2: 5, 3: 3, 4: 2, 5: 2}[d]) for _ in range(d)]
+        if d >= 4 and rng.random() < 0.5:
+            lv[rng.randrange(d)] = 3
         if d == 2 and rng.random() < 0.25:
             lv = rng.choice([[4, 5], [5, 4], [3, 5], [5, 3], [6, 2], [2, 6]])
         N = int(np.prod([2 ** l - 1 for l in lv]))
@@ -262,6 +266,73 @@ def run_dimwise(case, res):
     res.states.add(digest(["d", levs, ml, labels is not None]))
 
 
+def hat_matrix_with_boundary(xs, data):
+    data = np.asarray(data, dtype=float).reshape(len(data), -1)
+    Hs = []
+    for k in range(len(xs)):
+        x = np.asarray(xs[k], dtype=float)
+        H = np.zeros((len(data), len(x)))
+        for i in range(len(x)):
+            H[:, i] = rm.hat_nonuniform(x, i, data[:, k])
+        Hs.append(H)
+    A = Hs[0]
+    for k in range(1, len(xs)):
+        A = (A[:, :, None] * Hs[k][:, None, :]).reshape(len(data), -1)
+    return A
+
+
+def run_dimwise_boundary(case, res):
+    """Refinement-tree component grids WITH boundary points (GlobalTrapezoidalGrid(boundary=True)): system matrix and right-hand
+    side on both sides of the 200-point switch.  Samples lie strictly inside the unit cube (the density-estimation code documents
+    boundary grids as not fully supported; samples on the domain boundary of such grids are not generated)."""
+    import sparseSpACE.Grid as Gd
+    rng = random.Random(case["seed"])
+    d = rng.choice([1, 2, 2, 3])
+    caps = {1: [3, 4, 5, 7, 9, 17, 33], 2: [3, 4, 5, 7, 9, 12], 3: [3, 4, 5, 6]}[d]
+    while True:
+        ns = [rng.choice(caps) for _ in range(d)]
+        N = int(np.prod(ns))
+        if N <= 260:
+            break
+    if rng.random() < 0.3:
+        d, ns = 2, rng.choice([[15, 15], [14, 15], [17, 12], [9, 25]])     # above the 200-point switch
+    xs, levs = [], []
+    for k in range(d):
+        P, L = trees.gen_tree(rng, 0.0, 1.0, n_points=ns[k])
+        xs.append([float(x) for x in P])
+        levs.append(L)
+    ns = [len(x) for x in xs]
+    N = int(np.prod(ns))
+    X, labels, style = gen_data(rng, d, xs)
+    X = np.clip(X, 1e-3, 1 - 1e-3)
+    lam = rng.choice([0.0, 1e-3, 0.1, 1.0])
+    cfg = {"path": "dimwise_boundary", "d": d, "n": ns, "N": N, "M": len(X), "data": style, "lambda": lam, "labels": labels is not None,
+           "levels": levs}
+    res.sample = {"config": cfg}
+    a, b = np.zeros(d), np.ones(d)
+    grid = Gd.GlobalTrapezoidalGrid(a=a, b=b, boundary=True)
+    gs = Gd.GlobalTrapezoidalGrid(a=a, b=b, boundary=True)
+    op = make_op(X, labels, d, grid=grid, masslumping=False, lambd=lam)
+    cont = Dummy()
+    lvv = [max(l) for l in levs]
+    op.init_dimension_wise(grid, gs, cont, [1] * d, [max(lvv)] * d, a, b, 6)
+    with contextlib.redirect_stdout(io.StringIO()):
+        op.initialize_evaluation_dimension_wise(cont)
+    G = rm.kron_all([rm.gram_mass_1d(x, boundary=True) for x in xs])
+    R = np.asarray(op.build_R_matrix_dimension_wise(xs, levs), dtype=float)
+    res.close("R_equals_gram_dimwise_boundary", R, G + lam * np.eye(N), 1e-13 * max(1.0, lam), "C16_R_dimwise:boundary_points",
+              "build_R_matrix_dimension_wise (grid with boundary points) differs from hat Gram matrix + lambda I", cfg)
+    bvec = np.asarray(op.calculate_B_dimension_wise(op.data, xs, levs), dtype=float)
+    A = hat_matrix_with_boundary(xs, X)
+    s = np.ones(len(X)) if labels is None else labels
+    bref = (A * s[:, None]).sum(axis=0) / len(X)
+    res.close("b_dimwise_boundary", bvec, bref, 1e-13, "C16_b_dimwise:boundary_points:" + ("large" if N >= 200 else "small"),
+              "calculate_B_dimension_wise (grid with boundary points) differs from the mean of the hat functions", cfg)
+    res.hash = digest([cfg, X.tobytes().hex()[:64]])
+    res.nontrivial = max(ns) >= 4
+    res.states.add(digest(["db", levs, labels is not None]))
+
+
 def run_combi(case, res):
     from sparseSpACE.StandardCombi import StandardCombi
     rng = random.Random(case["seed"])
@@ -316,4 +387,4 @@ def crash_sig(case, ex, where, tb):
 
 
 def run_case(case, res):
-    {"uniform": run_uniform, "dimwise": run_dimwise, "combi": run_combi}[case["gen"]](case, res)
+    {"uniform": run_uniform, "dimwise": run_dimwise, "dimwise_boundary": run_dimwise_boundary, "combi": run_combi}[case["gen"]](case, res)
